@@ -52,7 +52,14 @@ struct RunResult {
 
 /// Run open + ops under a fault schedule. For every call, record whether a fault fired during it.
 fn run_with(b: &Base, faults: Vec<Fault>, ctx: &str) -> Result<(RunResult, Vec<bool>, u64), String> {
-    let reader = Reader::with(b.data.clone(), b.chunks.clone(), b.intr, faults).at_position(b.pos0);
+    run_with_reader(b, faults, None, ctx)
+}
+
+fn run_with_reader(b: &Base, faults: Vec<Fault>, no_seek_end: Option<u8>, ctx: &str) -> Result<(RunResult, Vec<bool>, u64), String> {
+    let mut reader = Reader::with(b.data.clone(), b.chunks.clone(), b.intr, faults).at_position(b.pos0);
+    if let Some(k) = no_seek_end {
+        reader = reader.without_seek_end(k);
+    }
     let mut fired_during: Vec<bool> = vec![];
     let f0 = reader.fired();
     let opened = guard(|| open_stream_as(AnyEndian::Little, reader.clone())).map_err(|p| format!("{}: open_stream panicked: {}", ctx, p))?;
@@ -134,6 +141,14 @@ fn oracle(case: &[u8], obs: &mut Obs) -> Result<(), String> {
             runs += 1;
         }
     }
+    // a stream that cannot seek relative to its end at all (every SeekFrom::End fails, whatever the error kind says)
+    for ekind in [0u8, 1, 1 + c.below(7) as u8] {
+        let ctx = format!("{}; every SeekFrom::End fails with {:?}", ctx0, verif_model::io::ERROR_KINDS[ekind as usize]);
+        let (r, fired, _) = run_with_reader(&b, vec![], Some(ekind), &ctx)?;
+        let (fq, lo) = compare(&b, &clean, &r, &fired, &ctx)?;
+        nt |= fq && lo;
+        runs += 1;
+    }
     // random multi-fault schedules with short reads mixed in
     for _ in 0..6 {
         let nf = 1 + c.below(4);
@@ -161,7 +176,7 @@ pub fn property() -> Property {
     Property {
         id: "C17",
         level: "fault_enumeration",
-        rule: "base cases are (file: a rich generated file or a linker-produced sample <= 16 KB) x (0..10 stream calls from the C07 vocabulary plus up to 3 repeats, so that a query that failed is asked again later) x (reader delivering unlimited or 24..88-byte chunks, optionally ErrorKind::Interrupted every n-th read, cursor initially at 0 or elsewhere). The base case is run fault-free to count its N I/O calls (every seek and every read); then EXHAUSTIVELY one run per call index k < N (300 sampled indices above that) for each of {error (ErrorKind::Other), premature EOF} x {transient (only call k), permanent (every call from k on)} and one transient error of another io::ErrorKind (Unsupported, WouldBlock, UnexpectedEof, TimedOut, PermissionDenied, InvalidData, BrokenPipe; rotating with k), plus 6 random multi-fault schedules with legal short reads mixed in. Oracle: the call (open or query) during which an error/EOF fault fired returns Err (no panic, no Ok); every other call returns Err or exactly the content digest it returns on the fault-free stream; open never fails unless a fault fired during it. Non-trivial: a fault fired inside a query (not only in open) and a later query succeeded; distinct by (file, ops, reader) hash.",
+        rule: "base cases are (file: a rich generated file or a linker-produced sample <= 16 KB) x (0..10 stream calls from the C07 vocabulary plus up to 3 repeats, so that a query that failed is asked again later) x (reader delivering unlimited or 24..88-byte chunks, optionally ErrorKind::Interrupted every n-th read, cursor initially at 0 or elsewhere). The base case is run fault-free to count its N I/O calls (every seek and every read); then EXHAUSTIVELY one run per call index k < N (300 sampled indices above that) for each of {error (ErrorKind::Other), premature EOF} x {transient (only call k), permanent (every call from k on)} and one transient error of another io::ErrorKind (Unsupported, WouldBlock, UnexpectedEof, TimedOut, PermissionDenied, InvalidData, BrokenPipe; rotating with k), plus 3 runs on a stream on which every SeekFrom::End fails (Other, Unsupported, one more kind), plus 6 random multi-fault schedules with legal short reads mixed in. Oracle: the call (open or query) during which an error/EOF fault fired returns Err (no panic, no Ok); every other call returns Err or exactly the content digest it returns on the fault-free stream; open never fails unless a fault fired during it. Non-trivial: a fault fired inside a query (not only in open) and a later query succeeded; distinct by (file, ops, reader) hash.",
         assumptions: &["ErrorKind::Interrupted is not a failure (read_exact retries it) and does not consume an I/O call index", "a short read is legal reader behaviour, not a failure"],
         subs: vec![Sub::new("faults", oracle, 1800, 60_000, 2_000_000).shrink(300)],
         extras: vec![],
